@@ -36,6 +36,13 @@ pub enum Op {
     Beta { i: u8, d: u32 },
     IsUnused { d: u32 },
     RemoveDartTx { d: u32 },
+    /// user block: compute the cell id of dart `d` for the orbit of kind `k`, then write the
+    /// attribute under that id (returns the id and the old value)
+    WriteACell { k: u8, d: u32, v: u64 },
+    /// user block: compute the vertex id of `d`, then write / read the coordinates under it
+    WriteVCell { d: u32, v: Bits3 },
+    ReadVCell { d: u32 },
+    ReadACell { k: u8, d: u32 },
     /// read-only auditor: reads every image and flag (and, with `data`, every coordinate and
     /// attribute of the given kinds) in one transaction; returns a digest of what it saw and
     /// whether it was a well-formed map
@@ -109,6 +116,26 @@ pub fn exec_tx(m: &AnyMap, t: &mut Transaction, op: &Op) -> TransactionClosureRe
             AnyMap::M3(_) => panic!("IsUnused is a 2D operation"),
         },
         Op::RemoveDartTx { d } => Res::B(lift(m.remove_dart_tx(t, *d))?),
+        Op::WriteACell { k, d, v } => {
+            let id = lift(m.cell_id_tx(t, crate::attrs::kind_orbit(*k as usize), *d))?;
+            let old = lift(m.write_attr_tx(t, *k as usize, id, *v))?;
+            Res::Us(vec![id, old.map_or(u32::MAX, |o| (o & 0xffff_ffff) as u32), old.map_or(0, |o| (o >> 32) as u32)])
+        }
+        Op::ReadACell { k, d } => {
+            let id = lift(m.cell_id_tx(t, crate::attrs::kind_orbit(*k as usize), *d))?;
+            let old = lift(m.read_attr_tx(t, *k as usize, id))?;
+            Res::Us(vec![id, old.map_or(u32::MAX, |o| (o & 0xffff_ffff) as u32), old.map_or(0, |o| (o >> 32) as u32)])
+        }
+        Op::WriteVCell { d, v } => {
+            let id = lift(m.cell_id_tx(t, 0, *d))?;
+            let old = lift(m.write_vertex_tx(t, id, *v))?;
+            let _ = id;
+            Res::V(old)
+        }
+        Op::ReadVCell { d } => {
+            let id = lift(m.cell_id_tx(t, 0, *d))?;
+            Res::V(lift(m.read_vertex_tx(t, id))?)
+        }
         Op::Audit { kinds, data } => {
             let snap = lift(m.snapshot_tx(t, *kinds, *data))?;
             // the digest makes the observed snapshot part of the transaction's return value, so
